@@ -50,42 +50,71 @@ theorem noDupClasses_of_nodup (cfg : Config) (g : Graph) (hnd : g.Nodup) (hk : K
       cases ht : cfg.targets <;> simp_all
   cases a; cases b; simp_all
 
-/-- the nodes behind the shapes: distinct, and exactly the selected ones -/
-theorem nodes_exact (cfg : Config) (hc : cfg.cap = 0) (g : Graph) :
-    (Dict.keys (Tracker.track cfg g)).Nodup ∧
-    ∀ n, n ∈ Dict.keys (Tracker.track cfg g) ↔ Spec.isSelected cfg g n = true :=
-  ⟨Tracker.WF_track cfg hc g, Tracker.mem_keys_track cfg hc g⟩
+/-- the selection pass 1 computes for class targets / all-classes mode without cap: exactly the
+selected nodes, each with its classes in document order -/
+theorem selection_exact (cfg : Config) (hc : cfg.cap = 0) (g : Graph) :
+    Dict.WF (Tracker.track cfg g) ∧
+    ∀ n, Dict.get? (Tracker.track cfg g) n =
+      if Spec.isSelected cfg g n then some (Spec.classesOf cfg g n) else none :=
+  ⟨Tracker.WF_track cfg hc g, Tracker.get?_track cfg hc g⟩
 
-/-- **R1 / profile**: every entry `(class, direction, property, type, cardinality)` of the profile
-is the number of selected nodes of the class having exactly that many (at least one, for `+`)
-values of that type — for every configuration without cap and every graph -/
-theorem profile_count_exact (cfg : Config) (hc : cfg.cap = 0) (g : Graph) (hnd : NoDupClasses cfg g)
+theorem classesIn_track (cfg : Config) (hc : cfg.cap = 0) (g : Graph) (n : String) :
+    Spec.classesIn (Tracker.track cfg g) n = Spec.classesOf cfg g n := by
+  unfold Spec.classesIn
+  rw [Tracker.get?_track cfg hc]
+  by_cases h : Spec.isSelected cfg g n = true
+  · simp [h]
+  · have : Spec.classesOf cfg g n = [] := by
+      unfold Spec.classesOf
+      unfold Spec.isSelected at h
+      simp only [List.any_eq_true, not_exists, not_and, Bool.not_eq_true] at h
+      simp only [List.map_eq_nil_iff, List.filter_eq_nil_iff]
+      intro t ht
+      simpa using h t ht
+    simp [h, this]
+
+/-- **R1 / profile, for any selection** (class targets, capped selections, shape maps): every entry
+`(class, direction, property, type, cardinality)` of the profile is the number of nodes selected
+for the class having exactly that many (at least one, for `+`) values of that type -/
+theorem profile_count_exact (cfg : Config) (sel : Spec.Selection) (hw : Dict.WF sel)
+    (hnd : ∀ n, (Spec.classesIn sel n).Nodup) (g : Graph)
     (c : String) (inv : Bool) (p ty : String) (card : Card) (hinv : inv = true → cfg.inverse = true) :
-    eget (build cfg (Tracker.track cfg g) (pass2 cfg (Tracker.track cfg g) g)) c inv (p, ty, card) =
-      Spec.countOver cfg g (Dict.keys (Tracker.track cfg g)) c inv p ty card :=
-  profile_exact cfg hc g hnd c inv p ty card hinv
+    eget (build cfg sel (pass2 cfg sel g)) c inv (p, ty, card) = Spec.countOver cfg sel g c inv p ty card :=
+  profile_exact cfg sel hw g hnd c inv p ty card hinv
 
-/-- **R1 / instance counts**: the per-shape instance count is the number of selected nodes -/
-theorem instance_count_exact (cfg : Config) (hc : cfg.cap = 0) (g : Graph) (hnd : NoDupClasses cfg g) (c : String) :
-    cget (initCounts cfg (Tracker.track cfg g)) c = Spec.classSizeOver cfg g (Dict.keys (Tracker.track cfg g)) c :=
-  count_exact cfg hc g hnd c
+/-- **R1 / instance counts**: the per-shape instance count is the number of nodes selected for it -/
+theorem instance_count_exact (cfg : Config) (sel : Spec.Selection) (hw : Dict.WF sel)
+    (hnd : ∀ n, (Spec.classesIn sel n).Nodup) (c : String) :
+    cget (initCounts cfg sel) c = Spec.classSize sel c :=
+  count_exact cfg sel hw hnd c
 
 /-- no entry exceeds the instance count ("no ratio above 100 %" at the level of the profile) -/
-theorem profile_count_le (cfg : Config) (hc : cfg.cap = 0) (g : Graph) (hnd : NoDupClasses cfg g)
+theorem profile_count_le (cfg : Config) (sel : Spec.Selection) (hw : Dict.WF sel)
+    (hnd : ∀ n, (Spec.classesIn sel n).Nodup) (g : Graph)
     (c : String) (inv : Bool) (p ty : String) (card : Card) (hinv : inv = true → cfg.inverse = true) :
-    eget (build cfg (Tracker.track cfg g) (pass2 cfg (Tracker.track cfg g) g)) c inv (p, ty, card) ≤
-      cget (initCounts cfg (Tracker.track cfg g)) c := by
-  rw [profile_count_exact cfg hc g hnd c inv p ty card hinv, instance_count_exact cfg hc g hnd c]
-  unfold Spec.countOver Spec.classSizeOver
+    eget (build cfg sel (pass2 cfg sel g)) c inv (p, ty, card) ≤ cget (initCounts cfg sel) c := by
+  rw [profile_count_exact cfg sel hw hnd g c inv p ty card hinv, instance_count_exact cfg sel hw hnd c]
+  unfold Spec.countOver Spec.classSize
   exact List.countP_le_length
 
-/-- R1 without any hypothesis on the graph (multiplicity form): a node typed twice with the same
-class is counted twice — this is what the code does on documents with repeated statements -/
-theorem profile_count_multiplicity (cfg : Config) (hc : cfg.cap = 0) (g : Graph)
+/-- the two together for class targets without cap, on duplicate-free documents -/
+theorem class_targets_exact (cfg : Config) (hc : cfg.cap = 0) (g : Graph) (hnd : NoDupClasses cfg g)
     (c : String) (inv : Bool) (p ty : String) (card : Card) (hinv : inv = true → cfg.inverse = true) :
-    eget (build cfg (Tracker.track cfg g) (pass2 cfg (Tracker.track cfg g) g)) c inv (p, ty, card) =
-      ((Dict.keys (Tracker.track cfg g)).map fun n => specContrib cfg g n c inv p ty card).sum :=
-  eget_profile cfg hc g c inv p ty card hinv
+    eget (Profiler.build cfg (Tracker.track cfg g) (pass2 cfg (Tracker.track cfg g) g)) c inv (p, ty, card)
+      = Spec.countOver cfg (Tracker.track cfg g) g c inv p ty card
+    ∧ cget (initCounts cfg (Tracker.track cfg g)) c = Spec.classSize (Tracker.track cfg g) c := by
+  have hw := Tracker.WF_track cfg hc g
+  have hnd' : ∀ n, (Spec.classesIn (Tracker.track cfg g) n).Nodup := by
+    intro n; rw [classesIn_track cfg hc g n]; exact hnd n
+  exact ⟨profile_count_exact cfg _ hw hnd' g c inv p ty card hinv, instance_count_exact cfg _ hw hnd' c⟩
+
+/-- R1 without any hypothesis on the multiplicity of classes: a node selected twice for the same
+class is counted twice — what the code does on documents with repeated statements -/
+theorem profile_count_multiplicity (cfg : Config) (sel : Spec.Selection) (hw : Dict.WF sel) (g : Graph)
+    (c : String) (inv : Bool) (p ty : String) (card : Card) (hinv : inv = true → cfg.inverse = true) :
+    eget (build cfg sel (pass2 cfg sel g)) c inv (p, ty, card) =
+      ((Dict.keys sel).map fun n => specContrib cfg sel g n c inv p ty card).sum :=
+  eget_profile cfg sel hw g c inv p ty card hinv
 
 /- non-vacuity: a concrete graph with a multi-typed node, a blank-node instance and cardinality 2 -/
 def exGraph : Graph :=
@@ -99,7 +128,8 @@ example : NoDupClasses exCfg exGraph :=
   noDupClasses_of_nodup exCfg exGraph (by decide) (by unfold KeysIdentify; decide)
 example : eget (build exCfg (Tracker.track exCfg exGraph) (pass2 exCfg (Tracker.track exCfg exGraph) exGraph))
     "C" false ("p", "IRI", Card.plus) = 1 := by decide
-example : Spec.countOver exCfg exGraph (Dict.keys (Tracker.track exCfg exGraph)) "C" false "p" "IRI" Card.plus = 1 := by decide
+example : Spec.countOver exCfg (Tracker.track exCfg exGraph) exGraph "C" false "p" "IRI" Card.plus = 1 := by decide
+example : Tracker.track exCfg exGraph = Spec.selectionOf exCfg exGraph := by decide
 example : cget (initCounts exCfg (Tracker.track exCfg exGraph)) "C" = 2 := by decide
 
 end Shexer.C01
